@@ -471,6 +471,7 @@ def stream_fit(chk, i, rng):
         est.fit(X, y)
     key = "fit"
     check_groups_attr(chk, key, est, case, replay)
+    check_calls_use_current_groups(chk, key, est, spy, replay)
     # thresholds of the whole history: alpha x the optimiser's rate after each step
     steps = len(spy.log)
     if len(spy.saved) == 4 and steps:
@@ -634,6 +635,102 @@ def stream_groups(chk, i, rng):
     chk.count(("groups", d, tuple(tuple(g) for g in gs)) if (valid and len(flat) < d) or not valid else None)
 
 
+# ------------------------------------------------------------------ stream 6: one estimator object, refitted with other groups
+def check_calls_use_current_groups(chk, key, est, spy, replay):
+    """every recorded proximal call of the fit/path just made must be the operator of the CURRENT groups_ (plain when it is
+    None, the group operator on exactly that partition otherwise) with threshold alpha x current optimiser rate."""
+    if len(spy.saved) != 4:
+        return
+    cur = jgroups(est.groups_)
+    for k, c in enumerate(spy.log):
+        if (cur is None) != (not c["grouped"]) or (cur is not None and c["groups"] != cur):
+            chk.fail(key + ":operator-groups", f"proximal call {k + 1} used {'the plain operator' if not c['grouped'] else 'the groups ' + str(c['groups'])} "
+                     f"but groups_ of this fit is {cur} (the model hands groups_ to the operator)", replay)
+            break
+    for k, c in enumerate(spy.log):
+        if c["thr"] != c["alpha"] * c["lr"]:
+            chk.fail(key + ":threshold-attr", f"proximal call {k + 1}: threshold {c['thr']} is not alpha*optimiser_.learning_rate={c['alpha'] * c['lr']}", replay, layer="L3")
+            break
+
+
+def stream_refit(chk, i, rng):
+    """fit/path with groups G1, set_params(groups=G2) (another partition, None <-> groups, possibly data with another number of
+    features), fit/path again on the SAME object: the second history must satisfy everything with respect to the current groups_,
+    and end in the weights a fresh estimator reaches."""
+    case, gem_kw, y = gen_case(rng, i, small=True)
+    if y is not None:                 # keep the affinity computed: the data may change between the two fits
+        gem_kw, y, case["gemini"] = {"gemini": "mmd_ova"}, None, "mmd_ova"
+    case["d"] = max(case["d"], 2)
+    case["max_iter"] = int(rng.integers(3, 13))
+    mode1, mode2 = str(rng.choice(["fit", "path"], p=[0.7, 0.3])), str(rng.choice(["fit", "path"], p=[0.7, 0.3]))
+    kinds = ["groups->groups", "groups->groups", "groups->groups", "none->groups", "groups->none"]
+    kind = kinds[i % len(kinds)]
+    d1 = case["d"]
+    d2 = d1 if rng.random() < 0.7 else int(rng.integers(2, 8))
+    g1 = None if kind == "none->groups" else gen_groups(rng, d1, allow_none=False)[0]
+    g2 = None if kind == "groups->none" else gen_groups(rng, d2, allow_none=False)[0]
+    case1 = dict(case, groups=g1)
+    case2 = dict(case, groups=g2, d=d2, data_seed=case["data_seed"] + (0 if d2 == d1 else 7))
+    X1, X2 = data_of(case1), data_of(case2)
+    pkw = {"alpha_multiplier": 2.0, "min_features": 1, "max_patience": 2, "restore_best_weights": bool(rng.random() < 0.5)}
+    if mode1 == "path" or mode2 == "path":
+        case1["alpha"] = case2["alpha"] = float(rng.choice([0.3, 1.0, 5.0]))
+    replay = {"first": dict(case1, mode=mode1), "second": dict(case2, mode=mode2), "path": pkw, "kind": kind}
+    est = build(case1, gem_kw)
+
+    def run(mode, X):
+        signal.signal(signal.SIGALRM, _alarm)
+        signal.alarm(10)
+        try:
+            with warnings.catch_warnings():
+                warnings.simplefilter("ignore")
+                if mode == "fit":
+                    est.fit(X)
+                else:
+                    est.path(X, **pkw)
+            return True
+        except Wall:
+            return False
+        finally:
+            signal.alarm(0)
+    if not run(mode1, X1):
+        chk.dist["refit:wall-limit"] += 1
+        chk.count(None)
+        return
+    est.set_params(groups=g2)
+    with Spy(est) as spy:
+        ok = run(mode2, X2)
+    if not ok:
+        chk.dist["refit:wall-limit"] += 1
+        chk.count(None)
+        return
+    check_groups_attr(chk, "refit", est, case2, replay)
+    check_calls_use_current_groups(chk, "refit", est, spy, replay)
+    sel, nun, moved, multi = state_checks(chk, "refit", est, X2, case2, rng, replay)
+    # history independence of the shrinkage: a fresh estimator with the same hyper-parameters reaches the same weights
+    fresh = build(case2, gem_kw)
+    fresh.set_params(**{k: v for k, v in est.get_params().items() if k != "gemini"})
+    signal.signal(signal.SIGALRM, _alarm)
+    signal.alarm(10)
+    try:
+        with warnings.catch_warnings():
+            warnings.simplefilter("ignore")
+            fresh.fit(X2) if mode2 == "fit" else fresh.path(X2, **pkw)
+        if not all(np.array_equal(a, b, equal_nan=True) for a, b in zip(est._get_weights(), fresh._get_weights())) \
+                or jgroups(fresh.groups_) != jgroups(est.groups_):
+            chk.fail("refit:differs-from-fresh", f"after {mode1} with groups {g1} and set_params(groups={g2}), {mode2} ends in other weights / groups_ than a fresh "
+                     f"estimator (selection {sel} vs {[int(j) for j in fresh.get_selection()]})", replay, layer="L3")
+    except Wall:
+        chk.dist["refit:wall-limit"] += 1
+    finally:
+        signal.alarm(0)
+    chk.traces += 1
+    chk.dist["refit:" + kind] += 1
+    chk.dist[f"refit:{mode1}->{mode2}"] += 1
+    chk.dist["refit:same-d" if d1 == d2 else "refit:other-d"] += 1
+    chk.count(("refit", case["estimator"], kind, mode1, mode2, d1, d2, nun) if (g1 is not None and g2 is not None and jgroups(g1) != jgroups(g2)) or nun else None)
+
+
 # ------------------------------------------------------------------ stream 5: an all-zero column inside a declared group
 def load_corpus():
     import os, json, glob
@@ -673,7 +770,8 @@ def stream_zerocol(chk, i, rng):
 
 
 STREAMS = {"zerocol": (stream_zerocol, 100, 1500), "groups": (stream_groups, 600, 6000), "update": (stream_update, 900, 12000),
-           "fit": (stream_fit, 660, 9000), "path": (stream_path, 80, 1000)}
+           "fit": (stream_fit, 660, 9000), "path": (stream_path, 80, 1000),
+           "refit": (stream_refit, 200, 3000)}
 
 
 def main():
@@ -703,7 +801,7 @@ def main():
     chk.notes.append("proximal operators are oracles here (library functions of gemclus.sparse._prox_grad, C05's subject); the theorems take "
                      "their common-factor and hierarchy-feasibility facts as premises")
     chk.finish(rule="streams: check_groups on random/malformed/edge group lists (d<=6); _update_weights of all 5 sparse estimators with the optimiser stubbed to "
-                    "the identity or recorded real step (alpha 0..1000, groups none/partition/partial, zero and underflowing rows); whole fits (all GEMINI names, "
+                    "the identity or recorded real step (alpha 0..1000, groups none/partition/partial, zero and underflowing rows); refits of one estimator object after set_params(groups=...) / other data (second history checked against the current groups_, the recorded operator calls and a fresh estimator); whole fits (all GEMINI names, "
                     "precomputed MMD, adam/sgd, batch sizes, alpha 0..200, M 0..10) with every threshold recorded; path() runs snapshotted at every "
                     "compute_val_score call, at the end and on the returned best weights (dynamic on/off, precomputed affinity). non-trivial = the state has at "
                     "least one unselected feature (update stream: or declared groups; groups stream: a partial or invalid list); distinct = distinct "
